@@ -22,7 +22,7 @@ LEVEL_TEXT = ('Every data statement kind of 8 targets x every boundary integer o
               '(thorough), and every reservation/padding layout (odd/even start x sizes x 0..3 arguments) are assembled; emitted bytes and '
               'addresses are compared with exact reference encoders.'
               ' DATA with every product of <= 3 string/integer arguments on two targets that pack two characters per word, and every reservation tree (? with nested DUP, aligned and unaligned) of elements smaller than the address unit (DB in the AVR code segment, DN) are compared as well.'
-              ' Sized reservations (23 target/statement pairs x positive and negative sizes), AVR DATA with strings and integers mixed, character constants of 1..9 characters per field width, float literals beyond the double range and TI WORD/LONG are enumerated.')
+              ' Sized reservations (23 target/statement pairs x positive and negative sizes), AVR DATA with strings and integers mixed, character constants of 1..9 characters per field width, float literals beyond the double range and TI WORD/LONG are enumerated. Motorola repeat factors (negative ones must be rejected), strings containing NUL characters and register symbols as data arguments (must be reported, never dropped) are enumerated too.')
 LEVEL_NOTE = ('Trusted: Fraction-based IEEE encoder (self-tested against struct), Python int.to_bytes, the manual\'s PADDING/DUP/CHARSET rules. '
               'Not covered: VAX/IBM/TI float formats, packed decimal, NUL characters in strings.')
 RULE = 'one micro-case per statement; non-trivial = all'
